@@ -131,17 +131,19 @@ class Exponential(DPMechanism):
 
     @classmethod
     def _find_probabilities(cls, epsilon, sensitivity, utility, monotonic, measure):
+        sensitivity = float(sensitivity)
         scale = epsilon / sensitivity / (2 - monotonic) if sensitivity / epsilon > 0 else float("inf")
 
         # Set max utility to 0 to avoid overflow on high utility; will be normalised out before returning
-        utility = np.array(utility) - max(utility)
+        utility = np.array(utility, dtype=float)
+        utility -= utility.max()
 
         if np.isinf(scale):
             probabilities = np.isclose(utility, 0).astype(float)
         else:
             probabilities = np.exp(scale * utility)
 
-        probabilities *= np.array(measure) if measure else 1
+        probabilities *= np.array(measure, dtype=float) if measure else 1
         probabilities /= probabilities.sum()
 
         return np.cumsum(probabilities)
@@ -245,10 +247,11 @@ class PermuteAndFlip(Exponential):
 
     @classmethod
     def _find_probabilities(cls, epsilon, sensitivity, utility, monotonic, measure):
+        sensitivity = float(sensitivity)
         scale = epsilon / sensitivity / (2 - monotonic) if sensitivity / epsilon > 0 else float("inf")
 
-        utility = np.array(utility)
-        utility -= max(utility)
+        utility = np.array(utility, dtype=float)
+        utility -= utility.max()
 
         if np.isinf(scale):
             log_probabilities = np.ones_like(utility) * (-float("inf"))
@@ -339,6 +342,7 @@ class ExponentialCategorical(DPMechanism):
             if utility_value < 0.0:
                 raise ValueError("Utility values must be non-negative")
 
+            utility_value = float(utility_value)
             sensitivity = max(sensitivity, utility_value)
             if value1 not in domain_values:
                 domain_values.append(value1)
